@@ -105,14 +105,26 @@ def run_views(case):
         L.append(f"    r{i} = Port.output({'Bit' if kind == 'bit' else f'BitVector[{hi - lo + 1}]'})")
     L += ["    def architecture(self):", "        loc = Signal[" + f"{rk}[{W}]](Null, name='loc')",
           "        @std.concurrent", "        def logic():"]
+    iter_reads = 0
     for i, (s, lo, hi, kind) in enumerate(reads):
         src = f"self.a{s}"
+        if kind != 'bit' and rnd.random() < 0.35:
+            # the elements obtained by iterating over the view alias the same root bits
+            L.append(f"            for i{i}, b{i} in enumerate({src}):")
+            L.append(f"                self.r{i}[i{i}] <<= b{i}")
+            iter_reads += 1
+            continue
         L.append(f"            self.r{i} <<= {src}" + ('' if kind == 'bit' else '.bitvector' if not s.endswith('.bitvector') else ''))
+    cnt['iterated_view_reads'] += iter_reads
     L += ["        @std.sequential(std.Clock(self.clk))", "        def proc():"]
     for (s, lo, hi, kind) in writes:
         w = hi - lo + 1
         if kind == 'bit':
             L.append(f"            self.t{s} <<= self.x[{lo}]")
+        elif rnd.random() < 0.3:
+            L.append(f"            for j{lo}_{hi}, e{lo}_{hi} in enumerate(self.t{s}):")
+            L.append(f"                e{lo}_{hi} <<= self.x[{lo} + j{lo}_{hi}]")
+            cnt['iterated_view_writes'] += 1
         else:
             view = ''
             if s.endswith('.unsigned'):
